@@ -45,24 +45,37 @@ def collect(h):
     items.append(("cache_delete_leaves_marker", "bool", "true" if marker else "false", rel + " CompareAndDelete: cache update after a successful delete"))
     items += big_values(h, rel)
     items.append(expired_branch(h, rel))
-    items.append(provider_handles(h, rel))
+    items += provider_handles(h, rel)
     items.append(write_errors(h, rel))
     return items
 
 
 def provider_handles(h, rel):
-    """does the caching provider hand out ONE caching storage per app (looked up in a map under its mutex) or
-    build a new cache on every AppStorage call (the code before the repair of C07-HANDLES)"""
+    """does the caching provider hand out ONE caching storage per app: is there a per-app map that AppStorage looks
+    up and stores into (else: a new cache on every call, the code before the repair of C07-HANDLES), and is its
+    mutex held from the lookup to the store (else two overlapping first calls for an app both miss the map and
+    build a cache each). Returns the two flags."""
     body = h.func_body(rel, r"^func \(asp \*implCachingAppStorageProvider\) AppStorage\(", "caching provider AppStorage")
     if "newCachingAppStorage(" not in body:
         raise h.Missing(f"{rel}: the caching provider no longer builds its storages in AppStorage; update C07_Cache/Model.v")
-    memo = re.search(r"if cached, ok := asp\.storages\[appQName\]; ok \{\s*return cached, nil\s*\}", body) \
-        and re.search(r"asp\.storages\[appQName\] = cached", body) and re.search(r"asp\.mu\.Lock\(\)\s*defer asp\.mu\.Unlock\(\)", body)
-    if memo:
-        return ("cache_provider_one_per_app", "bool", "true", rel + " AppStorage: one caching storage per app")
     if "storages" not in body:
-        return ("cache_provider_one_per_app", "bool", "false", rel + " AppStorage: a new cache on every call")
-    raise h.Missing(f"{rel}: cannot tell whether AppStorage returns one caching storage per app; update C07_Cache/Model.v")
+        return [("cache_provider_one_per_app", "bool", "false", rel + " AppStorage: a new cache on every call"),
+                ("cache_provider_lock_across_create", "bool", "false", rel + " AppStorage: no per-app map")]
+    lookup = re.search(r"cached, ok :?= asp\.storages\[appQName\]", body)
+    hit = re.search(r"if (?:cached, ok := asp\.storages\[appQName\]; )?ok \{\s*return cached, nil\s*\}", body)
+    store = re.search(r"asp\.storages\[appQName\] = cached", body)
+    create = body.find("newCachingAppStorage(")
+    if not (lookup and hit and store) or not (lookup.start() < create < store.start()):
+        raise h.Missing(f"{rel}: cannot tell whether AppStorage returns one caching storage per app; update C07_Cache/Model.v")
+    # the mutex is held across lookup, creation and store iff it is taken once, before the lookup, released by a
+    # defer, and never released explicitly
+    locks = [m.start() for m in re.finditer(r"asp\.mu\.Lock\(\)", body)]
+    deferred = [m.start() for m in re.finditer(r"defer asp\.mu\.Unlock\(\)", body)]
+    unlocks = [m.start() for m in re.finditer(r"asp\.mu\.Unlock\(\)", body)]
+    across = len(locks) == 1 and len(deferred) == 1 and len(unlocks) == 1 and locks[0] < deferred[0] < lookup.start()
+    return [("cache_provider_one_per_app", "bool", "true", rel + " AppStorage: per-app map looked up and stored into"),
+            ("cache_provider_lock_across_create", "bool", "true" if across else "false",
+             rel + " AppStorage: the provider's mutex held from the map lookup to the store")]
 
 
 def write_errors(h, rel):
